@@ -23,7 +23,7 @@ def skipEmptyLinesGo (start : Nat) : (tok rest : List Byte) → Outcome (Unit ×
     else if b == LF then skipEmptyLinesGo start (tok ++ [b]) r
     else .ok ((), ⟨start + tok.length, [], b :: r⟩)  -- `bytes.slice(); Complete(())`
 
-def skipEmptyLines : P Unit := fun c => skipEmptyLinesGo c.start c.tok c.rest
+def skipEmptyLines : P Unit := ⟨fun c => skipEmptyLinesGo c.start c.tok c.rest⟩
 
 /-- `skip_spaces`: `SP*`, stops at a peeked non-SP, then `slice()`. -/
 def skipSpacesGo (start : Nat) : (tok rest : List Byte) → Outcome (Unit × Cur)
@@ -32,7 +32,7 @@ def skipSpacesGo (start : Nat) : (tok rest : List Byte) → Outcome (Unit × Cur
     if b == SP then skipSpacesGo start (tok ++ [b]) r
     else .ok ((), ⟨start + tok.length, [], b :: r⟩)
 
-def skipSpaces : P Unit := fun c => skipSpacesGo c.start c.tok c.rest
+def skipSpaces : P Unit := ⟨fun c => skipSpacesGo c.start c.tok c.rest⟩
 
 /-- `if config.allow_multiple_spaces… { complete!(skip_spaces(bytes)) }` -/
 def optSkipSpaces (on : Bool) : P Unit := if on then skipSpaces else pure ()
@@ -43,13 +43,13 @@ def H11 : List Byte := [0x48, 0x54, 0x54, 0x50, 0x2F, 0x31, 0x2E, 0x31]  -- "HTT
 /-- `parse_version`: with ≥ 8 bytes, advance 8 and compare (the `u64::from_ne_bytes`
 comparison is byte-wise equality on either endianness); with fewer, match `HTTP/1.` byte by
 byte and then return Partial even if all 7 matched. -/
-def parseVersion : P Nat := fun c =>
+def parseVersion : P Nat := ⟨fun c =>
   match c.peekN 8 with
   | some eight =>
     (do advance 8
         if eight == H10 then pure 0
         else if eight == H11 then pure 1
-        else P.fail .version) c
+        else P.fail .version : P Nat).run c
   | none =>
     (do let _ ← expect (· == 0x48) .version   -- H
         let _ ← expect (· == 0x54) .version   -- T
@@ -58,13 +58,13 @@ def parseVersion : P Nat := fun c =>
         let _ ← expect (· == 0x2F) .version   -- /
         let _ ← expect (· == 0x31) .version   -- 1
         let _ ← expect (· == 0x2E) .version   -- .
-        P.partial_) c
+        P.partial_ : P Nat).run c⟩
 
 /-- the loop of `parse_token` (after the first byte) -/
 def tokenLoop (start : Nat) : (tok rest : List Byte) → Outcome (Slice × Cur)
   | _, [] => .part
   | tok, b :: r =>
-    if b == SP then sliceSkip 1 ⟨start, tok ++ [b], r⟩
+    if b == SP then (sliceSkip 1).run ⟨start, tok ++ [b], r⟩
     else if !isTchar b then .err .token
     else tokenLoop start (tok ++ [b]) r
 
@@ -72,27 +72,27 @@ def tokenLoop (start : Nat) : (tok rest : List Byte) → Outcome (Slice × Cur)
 def parseToken : P Slice := do
   let b ← next
   if !isTchar b then P.fail .token
-  else fun c => tokenLoop c.start c.tok c.rest
+  else ⟨fun c => tokenLoop c.start c.tok c.rest⟩
 
 def GET_ : List Byte := [0x47, 0x45, 0x54, 0x20]   -- "GET "
 def POST : List Byte := [0x50, 0x4F, 0x53, 0x54]   -- "POST"
 
 /-- `parse_method`: the two fast paths, else `parse_token`. -/
-def parseMethod : P Slice := fun c =>
+def parseMethod : P Slice := ⟨fun c =>
   match c.peekN 4 with
   | some four =>
     if four == GET_ then
-      (do advance 4; sliceSkip 1) c
+      (do advance 4; sliceSkip 1 : P Slice).run c
     else if four == POST then
-      match peekAhead 4 c with
+      match (peekAhead 4).run c with
       | .ok (pb, _) =>
-        if pb == some SP then (do advance 5; sliceSkip 1) c
-        else parseToken c
+        if pb == some SP then (do advance 5; sliceSkip 1 : P Slice).run c
+        else parseToken.run c
       | .part => .part
       | .err e => .err e
       | .ub u => .ub u
-    else parseToken c
-  | none => parseToken c
+    else parseToken.run c
+  | none => parseToken.run c⟩
 
 /-- `parse_uri` -/
 def parseUri (be : Backend) : P Slice := do
@@ -126,13 +126,13 @@ def reasonLoop (start : Nat) : (seen : Bool) → (tok rest : List Byte) → Outc
       match r with
       | [] => .part
       | b2 :: r2 =>
-        if b2 == LF then reasonFinish seen 2 ⟨start, tok ++ [b, b2], r2⟩
+        if b2 == LF then (reasonFinish seen 2).run ⟨start, tok ++ [b, b2], r2⟩
         else .err .status
-    else if b == LF then reasonFinish seen 1 ⟨start, tok ++ [b], r⟩
+    else if b == LF then (reasonFinish seen 1).run ⟨start, tok ++ [b], r⟩
     else if !isReason b then .err .status
     else reasonLoop start (seen || 0x80 ≤ b) (tok ++ [b]) r
 
 /-- `parse_reason` -/
-def parseReason : P Str := fun c => reasonLoop c.start false c.tok c.rest
+def parseReason : P Str := ⟨fun c => reasonLoop c.start false c.tok c.rest⟩
 
 end Hx
